@@ -1316,11 +1316,11 @@ class Evaluator:
             got = [self.lift(lambda b_, i_=i_: self.getitem(b_, i_, st, ctx), args[0]) for i_ in name]
             return got[0] if len(got) == 1 else Tup(got)
         if kind == 'listmethod' and name == 'sort' and not args:
-            items = st.heap[base.oid]['$items']
+            items = self.hp(st, base.oid)['$items']
             items[:] = self.sort_items(items, kwargs, st, ctx)
             return NONE
         if kind == 'listmethod':
-            items = st.heap[base.oid]['$items']
+            items = self.hp(st, base.oid)['$items']
             if name == 'append':
                 items.append(args[0])
                 return NONE
@@ -1910,7 +1910,7 @@ class Evaluator:
             base = self.eval(target.value, st, ctx)
             idx = self.eval(target.slice, st, ctx)
             if isinstance(base, Lst) and self.is_concrete_number(idx):
-                st.heap[base.oid]['$items'][int(self.scalar(idx).const_value())] = v
+                self.hp(st, base.oid)['$items'][int(self.scalar(idx).const_value())] = v
             elif isinstance(base, SymObj):
                 st.env[f'$store:{base.path}[{self.describe(idx)}]'] = v
             elif isinstance(base, DictVal):
